@@ -186,8 +186,7 @@ func concurrentGC(r *vh.Run, i int) {
 							upOK = false
 							tr("client %d image %d: upload of %s answered %d", cl, n, b.Name, rs.Status)
 							if rs.Status >= 500 {
-								viol("concurrent:upload-5xx", fmt.Sprintf("upload of %s answered %d while collections run", b.Name, rs.Status))
-								return
+								r.Count("concurrent_5xx_answers", 1) // not acknowledged: nothing C05 speaks about (answers are C15's)
 							}
 							break
 						}
@@ -201,8 +200,7 @@ func concurrentGC(r *vh.Run, i int) {
 					case rs.Status == 201:
 						ok = true
 					case rs.Status >= 500:
-						viol("concurrent:push-5xx", fmt.Sprintf("manifest push of %s answered %d while collections run", im.tag, rs.Status))
-						return
+						r.Count("concurrent_5xx_answers", 1)
 					default:
 						r.Count("concurrent_push_retries", 1) // a blob was collected between its upload and the manifest: legitimate
 					}
@@ -226,8 +224,8 @@ func concurrentGC(r *vh.Run, i int) {
 						if ds.Status == 202 {
 							acked[cl] = append(acked[cl][:j], acked[cl][j+1:]...)
 							r.Count("concurrent_tag_deletes", 1)
-						} else if ds.Status >= 500 || ds.Status == 404 {
-							viol("concurrent:delete-refused", fmt.Sprintf("DELETE of the acknowledged tag %s answered %d while collections run", old.tag, ds.Status))
+						} else if ds.Status == 404 {
+							viol("concurrent:acknowledged-tag-unknown", fmt.Sprintf("DELETE of the acknowledged tag %s, which only this client deletes, answered 404 while collections run", old.tag))
 							return
 						}
 					} else if !pull(old, "later, while other clients push and delete") {
